@@ -318,14 +318,45 @@ inductive Outcome where
   | linkFailed (errs : List Err)
   | done (res : Result) (leaves : List (String × String × Except Err DEntry))
 
-/-- Top-level leaves `leaf l { type identityref {…} }` of every loaded module and submodule:
-(root name, leaf name, resolution), as `ToEntry(root)` resolves them.  `Process` itself gets there
-(and reports their errors) only when `process` had no errors. -/
+/-- The `type identityref` statement that decides the identity base of a top-level leaf or
+leaf-list `l` of `m`: written directly on it, or the first identityref member of its union, or
+the type of the top-level typedef of `m` that `l` names without prefix (`Type.resolve` finds that
+typedef first: it looks in the ancestors of the type statement before anything else). -/
+def identityrefTypeOf (m : Mod) (l : Stmt) : Option Stmt :=
+  match l.one? "type" with
+  | none => none
+  | some ty =>
+    if ty.arg == "identityref" then some ty
+    else if ty.arg == "union" then (ty.all "type").find? (·.arg == "identityref")
+    else
+      match (m.stmt.all "typedef").find? (·.arg == ty.arg) with
+      | some td =>
+        match td.one? "type" with
+        | some tt => if tt.arg == "identityref" then some tt else none
+        | none => none
+      | none => none
+
+/-- Top-level leaves and leaf-lists of every loaded module and submodule whose type is an
+identityref (directly, as union member, through a local typedef): (root `name@revision`, node name,
+resolution), as `ToEntry(root)` resolves them.  `Process` itself gets there (and reports their
+errors) only when `process` had no errors. -/
 def identityrefLeaves (r : Registry) (dict : Dict) : List (String × String × Except Err DEntry) :=
   r.mods.flatMap fun m =>
-    (m.stmt.all "leaf").filterMap fun l =>
-      match l.one? "type" with
-      | some ty => if ty.arg == "identityref" then some (m.name, l.arg, identityrefBase r dict m ty) else none
+    (m.stmt.all "leaf" ++ m.stmt.all "leaf-list").filterMap fun l =>
+      (identityrefTypeOf m l).map fun ty => (m.fullName, l.arg, identityrefBase r dict m ty)
+
+/-- `resolveTypedefs` (last step of `process`), as far as identities are concerned: the errors of
+the top-level typedefs whose type is an identityref, for every loaded module and submodule. -/
+def typedefErrs (r : Registry) (dict : Dict) : List Err :=
+  r.mods.flatMap fun m =>
+    (m.stmt.all "typedef").filterMap fun td =>
+      match td.one? "type" with
+      | some tt =>
+        if tt.arg == "identityref" then
+          match identityrefBase r dict m tt with
+          | .error e => some e
+          | .ok _ => none
+        else none
       | none => none
 
 def run (o : Oracle) (r : Registry) : Outcome :=
@@ -337,12 +368,14 @@ def run (o : Oracle) (r : Registry) : Outcome :=
     | none => .outOfFuel
     | some res => .done res (identityrefLeaves r res.dict)
 
-/-- The errors `Process` returns, as far as identities are concerned: those of `process`, or, when
-there are none, those of the identityref leaves (second stage: `ToEntry` + `GetErrors`). -/
-def processErrs (res : Result) (leaves : List (String × String × Except Err DEntry)) : List Err :=
-  if res.errs.isEmpty then
+/-- The errors `Process` returns, as far as identities are concerned: those of `process`
+(`resolveIdentities`, then `resolveTypedefs`), or, when there are none, those of the identityref
+leaves (second stage: `ToEntry` + `GetErrors`). -/
+def processErrs (r : Registry) (res : Result) (leaves : List (String × String × Except Err DEntry)) : List Err :=
+  let stage1 := res.errs ++ typedefErrs r res.dict
+  if stage1.isEmpty then
     leaves.filterMap fun (_, _, x) => match x with | .ok _ => none | .error e => some e
-  else res.errs
+  else stage1
 
 /-! ## Loading -/
 
